@@ -4,6 +4,7 @@ import os
 
 import locks
 import rules_seq
+import rules_width
 import rules_ttl
 import rules_pos
 import rules_policy
@@ -134,8 +135,10 @@ def c02(tier, repo):
     an = analysis(repo)
     rules_seq.rule_c02(an, res)
     rules_seq.rule_c02_c03_shared_full_test(an, res, 'C02')
+    rules_width.check(an, res, 'C02', ('field',))
     res.incomplete += [x for x in an.incomplete if an.relevant(x)]
     annotate(res, an)
+    res.assumptions.append('R-WIDTH: counters, slot indices and use counts are declared with 64-bit integers (checked on the declarations of this tree)')
     res.explanation = ('Structural clauses of C02 (DESIGN.md 6.C02), decided on every path and loop iteration of every entry point: '
                        'R-BALANCE (counter, index, free/used partition and every auxiliary structure change by the same amount), '
                        'R-BOUND (interval argument: from 0 <= size <= capacity and the path tests, the counter stays in range after '
@@ -196,12 +199,12 @@ c04 = _simple('C04', rules_ttl.rule_c04,
               'induction from these clauses to the behavioural statement.',
               ['steady_clock is monotone', 'RI at entry (inductive hypothesis)'],
               {'R-LIVE-GUARD': 14, 'R-PURGE-FIRST': 20, 'R-PURGE-SHAPE': 20, 'R-REFILE-ON-UPDATE': 20, 'ORD-WITNESS': 10})
-c05 = _simple('C05', rules_ttl.rule_c05,
+c05 = _simple('C05', lambda an, res: (rules_ttl.rule_c05(an, res), rules_width.check(an, res, 'C05', ('duration',))),
               'Structural clauses of C05 (DESIGN.md 6.C05): R-DEADLINE-PROV (the term stored as deadline and used as ttl key is now + d with '
               'now the call\'s single clock sample and d the ttl in force: call parameter / element ttl for tlru, configured field otherwise), '
               'R-WRITE-RESTARTS-TTL (every UPDATE and BIND row writes the deadline of the written entry exactly once), '
               'R-WHO-WRITES-DEADLINE (no other operation touches a deadline), R-CFG-ONLY (update_ttl only stores the duration), '
-              'R-REFILE-ON-UPDATE. Early removal is excluded by C03\'s licence rule.',
+              'R-REFILE-ON-UPDATE, R-WIDTH (no duration the code computes with has a representation narrower than the clock\'s). Early removal is excluded by C03\'s licence rule.',
               ['steady_clock is monotone', 'now + ttl does not overflow (excluded by the property)'],
               {'R-DEADLINE-PROV': 30, 'R-WRITE-RESTARTS-TTL': 30, 'R-CFG-ONLY': 1, 'R-TTL-USE': 200})
 c16 = _simple('C16', rules_ttl.rule_c16,
@@ -277,24 +280,25 @@ c20 = _simple('C20', rules_misc.rule_c20,
               'field without a reset rule is reported. On the empty path nothing may change.',
               ['RI at entry', 'slots are interchangeable: behaviour does not depend on which free slot an insert claims'],
               {'R-RESET-COMPLETE': 6, 'R-FREE-SLOT': 30})
-c18 = _simple('C18', rules_misc.rule_c18,
+c18 = _simple('C18', lambda an, res: (rules_misc.rule_c18(an, res), rules_width.check(an, res, 'C18', ('tally',))),
               'C18 (DESIGN.md 6.C18): sibling agreement. For every range method (insert_range, erase_range, find_range, find_range_fill, fifo\'s '
               'iterator-pair overloads) the set of canonical path summaries (valuation, abstract effects, yielded result; subject key/value/ttl '
               'abstracted, results renumbered) of its loop body equals that of the single-key sibling (R-SIB-BODY); results are delivered once '
               'per element paired with the element\'s own key, tallies change exactly on successes, no early exit (R-SIB-PLUMB); one clock '
               'sample outside the loop, same prefix (purge) as the single form (R-SIB-ONCE); fifo range overloads forward begin/end of the same '
               'range (R-SIB-FWD); the allow / peek parameters of a range form and of its single-key form default to the same enumerator '
-              '(R-SIB-DEFAULTS). One critical section for the whole loop is C06.',
+              '(R-SIB-DEFAULTS); returned counts are accumulated in 64-bit integers (R-WIDTH). One critical section for the whole loop is C06.',
               ['ut_map/ut_set insert_range purges once before the loop: equal to per-call purging when uniform_ttl > 0 (observation O1)',
                'RI at entry of every iteration (loop invariant, by C01/C02 clauses)'],
               {'R-SIB-BODY': 40, 'R-SIB-PLUMB': 100, 'R-SIB-ONCE': 40, 'R-SIB-PREFIX': 30, 'R-SIB-DEFAULTS': 12})
-c01 = _simple('C01', rules_misc.rule_c01,
+c01 = _simple('C01', lambda an, res: (rules_misc.rule_c01(an, res), rules_width.check(an, res, 'C01', ('field',))),
               'C01 (DESIGN.md 6.C01): key<->slot binding discipline on every path of every entry point: R-LOOKUP-PROV (the index is consulted '
               'with the call\'s own key / range element, a hit yields exactly the value field of the slot the index names for that key, a miss '
               'yields nothing), R-BIND-COHERENT (index entry for the call\'s key names the claimed slot, the call\'s value goes into that slot, '
               'every back-pointer of the slot is written once with the matching producer; updates write the found slot), R-KIND (every slot a '
               'path touches is named by a sanctioned producer: no raw random number, stale or caller value used as slot), R-PERM-BACKPTR (rr), '
-              'R-PARTITION-INTEGRITY (no bound slot is left on the free side of the partition, none is bound twice), R-NO-REHASH.',
+              'R-PARTITION-INTEGRITY (no bound slot is left on the free side of the partition, none is bound twice), R-NO-REHASH, R-WIDTH (slot indices, '
+              'counters and use counts are declared 64 bits wide: no two keys can share a slot by wrap-around).',
               ['RI at entry', 'paper induction: BIND/UPDATE are the only writers of values, lookups read the slot the index names'],
               {'R-LOOKUP-PROV': 100, 'R-BIND-COHERENT': 40, 'R-KIND': 200, 'R-NO-REHASH': 8})
 c08 = _simple('C08', rules_misc.rule_c08,
@@ -309,7 +313,8 @@ c08 = _simple('C08', rules_misc.rule_c08,
 
 RULES['C09'] = rules_seq.rule_c09
 RULES['C19'] = rules_seq.rule_noninterference
-RULES['C02'] = lambda an, res: (rules_seq.rule_c02(an, res), rules_seq.rule_c02_c03_shared_full_test(an, res, 'C02'))
+RULES['C02'] = lambda an, res: (rules_seq.rule_c02(an, res), rules_seq.rule_c02_c03_shared_full_test(an, res, 'C02'),
+                                rules_width.check(an, res, 'C02', ('field',)))
 RULES['C03'] = lambda an, res: (rules_seq.rule_c03(an, res), rules_seq.rule_c02_c03_shared_full_test(an, res, 'C03'))
 
 CHECKS = {'C01': c01, 'C08': c08, 'C18': c18, 'C20': c20, 'C11': c11, 'C14': c14, 'C15': c15, 'C10': c10, 'C12': c12, 'C13': c13, 'C04': c04, 'C05': c05, 'C16': c16, 'C17': c17, 'C02': c02, 'C03': c03, 'C06': c06, 'C07': c07, 'C09': c09, 'C19': c19}
